@@ -107,6 +107,20 @@ CHECKS = {
         TRUSTED + "; strings compared by checksum, angles measured by scipy",
         "DESIGN.md 4/C13",
     ),
+    "C11": (
+        "model_checking",
+        "spec/Zyx.tla (exact rotations: the 24 signed permutation matrices and rational rotations from integer "
+        "quaternions), Motion.tla (pose machine: world rotations compose on the left and fix positions, internal "
+        "rotations/translations act in the molecule frame, copy flag) and PoseStatics.tla (axes, handedness, "
+        "reconstruction from any two axes, local coordinates). TLC checks orthonormality, right-handedness, the left/right "
+        "composition and frame laws on every reachable pose, and emits expected trajectories/observables; replay on real "
+        "Molecules: every (pose, operation) pair, TLC-simulated 6-step programs compared after each step (returned pose, "
+        "receiver pose, object identity), all 24+8 orientations x 3 axis pairs, all 576 ordered Rot24 pairs as mixed "
+        "batches, representation and 24 Euler-sequence round trips, local coordinates, affine matrices.",
+        "TLA+ spec Zyx/Motion/PoseStatics model-checked by TLC; emitted trajectories and observables replayed on real Molecules",
+        TRUSTED + "; Euler/quaternion/rotvec/matrix round trips are relations between real calls",
+        "DESIGN.md 4/C11",
+    ),
 }
 
 REASON_TODO = "check not built yet in this round (planned: see DESIGN.md section 4)"
